@@ -1,5 +1,5 @@
 (* C09 - CTAP1/U2F responses are encoded in the U2F raw message layout. *)
-From Ctap Require Import Base Schema Wire Typed Procs Inst Tables ProcTables Finite FramingP WireP LayoutP FnShapes Shapes ObShapeU2fSer.
+From Ctap Require Import Base Schema Wire Typed Procs Inst Tables ProcTables Finite FramingP WireP LayoutP FnShapes Shapes ObShapeU2fSer Deps ObDeps.
 Local Open Scope string_scope.
 Local Open Scope Z_scope.
 
@@ -68,6 +68,10 @@ Proof. vm_compute. reflexivity. Qed.
 Theorem c09_modelled_functions_unchanged_u2f_ser : shapes_hold fn_shapes shapes_u2f_ser = true.
 Proof. exact generated_shapes_u2f_ser. Qed.
 
+(* the third-party crates the model represents by hand are pinned at the versions it was written against *)
+Theorem c09_modelled_dependencies_pinned : deps_hold lock_versions cargo_deps = true.
+Proof. exact generated_deps. Qed.
+
 Eval vm_compute in "ASSUMPTIONS c09_parts". Print Assumptions c09_parts.
 Eval vm_compute in "ASSUMPTIONS c09_length_byte_exact". Print Assumptions c09_length_byte_exact.
 Eval vm_compute in "ASSUMPTIONS c09_generated_capacities". Print Assumptions c09_generated_capacities.
@@ -76,3 +80,4 @@ Eval vm_compute in "ASSUMPTIONS c09_overflow". Print Assumptions c09_overflow.
 Eval vm_compute in "ASSUMPTIONS c09_prior_kept". Print Assumptions c09_prior_kept.
 Eval vm_compute in "ASSUMPTIONS c09_pubkey". Print Assumptions c09_pubkey.
 Eval vm_compute in "ASSUMPTIONS c09_modelled_functions_unchanged_u2f_ser". Print Assumptions c09_modelled_functions_unchanged_u2f_ser.
+Eval vm_compute in "ASSUMPTIONS c09_modelled_dependencies_pinned". Print Assumptions c09_modelled_dependencies_pinned.
